@@ -131,9 +131,9 @@ def run(res):
     })
 
 
-def macro_level(res, n, build_error=""):
-    """set patterns written through the real macro (compiled by rustc, run): the assertion passes iff the extracted
-    specification (Spec.v: existence of a one-to-one assignment, by brute force, plus the length rule) says so"""
+def macro_cases(seed, n, build_error=""):
+    """n set patterns (semgen.set_stress_case) compiled with the real macro and run, with the extracted specification and model
+    execution evaluated on the same triples; cached; also part of the shared semantic corpus of C01, C02, C03 and C05"""
     import random
     import e2e
     import maclib
@@ -143,7 +143,7 @@ def macro_level(res, n, build_error=""):
     okm, outm = maclib.build_mac()
     if not okm:
         raise vlib.CheckError("harness mac does not build against /repo: " + (build_error or outm)[-800:])
-    rng = random.Random(res.seed * 17 + 10)
+    rng = random.Random(seed * 17 + 10)
 
     def compute():
         cs = [semgen.set_stress_case(rng) for _ in range(n)]
@@ -151,7 +151,13 @@ def macro_level(res, n, build_error=""):
             return semstage.run_cases(cs, tag="c10ml")
         finally:
             e2e.cleanup("c10ml")
-    cases = vlib.cached("c10macro", [res.seed, n], compute)
+    return vlib.cached("c10macro", [seed, n], compute)
+
+
+def macro_level(res, n, build_error=""):
+    """set patterns written through the real macro (compiled by rustc, run): the assertion passes iff the extracted
+    specification (Spec.v: existence of a one-to-one assignment, by brute force, plus the length rule) says so"""
+    cases = macro_cases(res.seed, n, build_error)
     failing = 0
     for c in cases:
         spec = c["model"]["frontier"]           # brute-force existence of an assignment (Spec.v), extracted
